@@ -45,7 +45,13 @@ def run(ctx):
     ctx.rule = ("histories of 1-30 public mutator calls over the full alphabet and argument shapes; full snapshot "
                 "(order, members, memberships, three attribute levels, counter, frozen flag, outcome kind) compared "
                 "with the model after every op; non-trivial = distinct full state with an edge of >=2 members after >=2 op kinds")
-    dis, hist = run_sm(ctx, MH, "HG", FIELDS, pred_hg, ctx.n(300, 12000), corr_name="refinement HG~Hypergraph (full snapshot)")
+    extra = []
+    if not ctx.quick:
+        extra = list(MH.exhaustive_histories(4))
+        ctx.exhaustive = True
+        ctx.extra["exhaustive_space"] = f"all {len(extra)} op sequences of length <= 4 over the 14-op alphabet of hg.small_alphabet()"
+    dis, hist = run_sm(ctx, MH, "HG", FIELDS, pred_hg, ctx.n(300, 12000), extra_histories=extra,
+                       corr_name="refinement HG~Hypergraph (full snapshot)")
     # for C05 the model is the transcription of the documentation: a disagreement *is* the failing history
     for d in ctx.extra.get("disagreements", []):
         ctx.violation(d["ops"][-1]["op"], "differs-from-spec:" + ",".join(d["fields"]), {"class": "Hypergraph", "ops": d["ops"]},
